@@ -421,9 +421,9 @@ def plain_group_family(run, gk, tv_gadd, tv_shapes):
         for kind, p in (("DM", ca.DM.zeros(*shp)), ("SX", ca.SX.sym("p", *shp))):
             try:
                 e = obj.elem(p)
-                ok = True
-                if tuple(e.param.shape) != (tv["n"], 1):
-                    ok = False
+                ok = True               # accepted
+                if tv["accept"] and tuple(e.param.shape) != (tv["n"], 1):
+                    run.violation(f"{gk}/elem/param_shape/{cellname}", f"accepted parameter is stored with shape {tuple(e.param.shape)}", {"tv": tv})
             except AssertionError:
                 ok = False
             except Exception as ex:  # noqa
